@@ -38,10 +38,13 @@ theorem inv_fillAll (z : Agg) (s : List (Datum × Val)) (hz : isZeroTree z = tru
     (hrun : goodRun z s = true) : inv (fillAll z s) = true :=
   Hg.inv_fillAll z s hz hrun
 
-/-- **every reachable state**: after any history of fill / + / += / * / zero() / copy() over a pool of aggregators
-derived from one empty live tree (Hg.Model.History), every aggregator of the pool satisfies the invariants, is
-well-formed and has the static structure of the empty tree.  `okRun`: every fill has a finite or gated weight and does
-not raise, every scaling factor is finite or gated; `goodFills`: every fill lands in a `good` state — needed because a
+/-- **every reachable state**: after any history of fill / fill.numpy / + / += / * / zero() / copy() over a pool of
+aggregators derived from one empty live tree (Hg.Model.History), every aggregator of the pool satisfies the invariants,
+is well-formed and has the static structure of the empty tree.  `okRun`: every fill has a finite or gated weight and does
+not raise, every vectorised fill (`HOp.fillnp`, the model `fillNp` of `fill.numpy`) satisfies the executable hypotheses
+of C03 `fillNp_eq_rows` on the state it is applied to (one weight per row, no negative weight, the row-wise run of the
+batch is good, no NaN reaches a Sum, every quantity evaluates on every record of the batch), every scaling factor is
+finite or gated; `goodFills`: every row-wise fill lands in a `good` state — needed because a
 Select / Fraction whose quantity is +inf hands an infinite weight to its child without raising
 (`Hg.Hist.Counter.needs_goodFills` is the kernel-checked counterexample to the statement without it). -/
 theorem inv_history (z : Agg) (ops : List HOp)
@@ -49,6 +52,13 @@ theorem inv_history (z : Agg) (ops : List HOp)
     (hok : okRun [z] ops = true) (hgf : goodFills [z] ops = true) :
     ∀ a ∈ runH z ops, inv a = true ∧ good a = true ∧ sameBase z a = true :=
   Hg.inv_history z ops hz hg ht hn hok hgf
+
+/-- the same with live templates in the conclusion -/
+theorem inv_history_tmpl (z : Agg) (ops : List HOp)
+    (hz : isZeroTree z = true) (hg : good z = true) (ht : hasTmpl z = true)
+    (hok : okRun [z] ops = true) (hgf : goodFills [z] ops = true) :
+    ∀ a ∈ runH z ops, inv a = true ∧ good a = true ∧ sameBase z a = true ∧ hasTmpl a = true :=
+  Hg.inv_history_tmpl z ops hz hg ht hok hgf
 
 /-- **vectorised fill**: under the hypotheses of C03 `fillNp_eq_rows`, `fill.numpy` on a state that satisfies the
 invariants returns a state that satisfies them (the zero-weight bins a vectorised fill may create are copies of the
@@ -83,6 +93,17 @@ open Hg.Ex in
 open Hg.Ex in
 #guard (let rows := (s1 ++ s2).map (·.1); let ws := (s1 ++ s2).map (·.2);
   nonNegW ws && goodRun z (rows.zip ws) && noNanForSums z rows && qtysOk z rows && (fillNp z rows ws).any inv)
+/- non-vacuity of `inv_history` with vectorised fills: row-wise fills, a `fill.numpy` of the batch `s2`, a copy, a
+`fill.numpy` of the batch `s1` into the copy, `+=` — the history is admissible, the vectorised fills return a state
+(they change their slot) and every member of the final pool satisfies the conclusion -/
+open Hg.Ex in
+#guard (let ops : List HOp := [.fill 0 [.num (.fin (1/2)), .num (.fin 3)] 1, .fillnp 0 (s2.map (·.1)) (s2.map (·.2)),
+    .copy 0, .fillnp 1 (s1.map (·.1)) (s1.map (·.2)), .iadd 0 1, .mul 0 (.fin 2),
+    .fillnp 2 ((s1 ++ s2).map (·.1)) ((s1 ++ s2).map (·.2))];
+  okRun [z] ops && goodFills [z] ops && (runH z ops).length == 3 &&
+  (runH z ops).all (fun a => inv a && good a && sameBase z a && hasTmpl a) &&
+  runH z (ops.take 2) != runH z (ops.take 1) && runH z (ops.take 4) != runH z (ops.take 3) &&
+  runH z ops != runH z (ops.take 6))
 open Hg.Ex in
 #guard (let t := fillAll z (s1 ++ s2); good t && uniform t && knownCtype t && inv t && (decode (encode t)).any inv)
 
